@@ -174,6 +174,23 @@ def run(ctx, rep) -> None:
               f"listing in {lister.qualname}: None-guard={has_none} truncation-guard(len(ids) > capacity)={has_trunc} requested limit capacity+1={limit_ok} capacity=filter capacity={cap_def} caller returns on None={caller_none_guard}",
               hd.file, line, disc="truncation")
     exc_ret = [h for t in ast.walk(lister.node) if isinstance(t, ast.Try) and any(c in list(ast.walk(t)) for c in lst_calls) for h in t.handlers if any(isinstance(s_, ast.Return) for s_ in h.body)]
+    # the listing behind the hydration returns EVERY processed id: the filter is declared authoritative on it, so any
+    # restriction other than the caller-visible LIMIT (which _hydrate_deduplicator detects as truncation) silently drops ids
+    from .. import sqlshape as _sq
+    lst = [s_ for s_ in _sq.statements(prog) if s_.func.qualname.split(".")[-1] == "get_processed_message_ids" and (rep.tier == "thorough" or _sq.is_sqlite(s_))]
+    listers = [f_ for f_ in prog.all_functions() if f_.qualname.split(".")[-1] == "get_processed_message_ids" and f_.module.name.startswith("stabilize.persistence.") and ("sqlite" in f_.module.name or rep.tier == "thorough")
+               and any(isinstance(c_, ast.Call) and isinstance(c_.func, ast.Attribute) and c_.func.attr == "execute" for c_ in ast.walk(f_.node))]
+    rep.floor("processed-id listing statements", len(lst), 1)
+    for s_ in lst:
+        okl = s_.kind == "SELECT" and s_.table == "processed_messages" and not s_.where and not s_.dynamic
+        rep.check(okl, "C09.R3", f"{s_.func.module.name.split('.')[-2]}: the hydration listing returns every processed id", "SELECT message_id FROM processed_messages [LIMIT]" if okl else
+                  f"`{s_.text[:90]}` restricts the ids (where {s_.where}{', built dynamically' if s_.dynamic else ''}): hydrate() declares the filter authoritative although older processed messages are missing from it - "
+                  "with dedup_trust_negative_cache a redelivered old message is handled again", s_.file, s_.line, disc=f"listing:{s_.func.module.name}")
+    for f_ in listers:
+        n_stmt = len([s_ for s_ in lst if s_.func is f_ or (s_.func.qualname == f_.qualname and s_.func.module is f_.module)])
+        n_exec = len([c_ for c_ in ast.walk(f_.node) if isinstance(c_, ast.Call) and isinstance(c_.func, ast.Attribute) and c_.func.attr == "execute"])
+        rep.check(n_stmt >= n_exec, "C09.R3", f"{f_.module.name}: every query of the hydration listing is a literal statement", f"{n_stmt} recognised statement(s) for {n_exec} execute call(s)" if n_stmt >= n_exec else
+                  f"{n_exec - n_stmt} execute call(s) run a query assembled at run time: its predicate cannot be checked for completeness", f_.file, f_.node.lineno, disc=f"listing-dynamic:{f_.module.name}")
     rep.check(bool(exc_ret), "C09.R3", "hydration failure leaves the filter advisory", "exception while listing ids returns without hydrate", lister.file, lister.node.lineno, disc="exc")
     # the ids handed to hydrate() are read AFTER the filter was cleared: no reset() between reading them and hydrating
     src_line = src_assign[-1].lineno if src_assign else hd.node.lineno
@@ -205,6 +222,10 @@ def run(ctx, rep) -> None:
                 seen.add(key)
                 rep.ok("C09.R4", f"{pi.handler}:{pi.shape}", "mark in the last commit", pi.seq[m].site[0], pi.seq[m].site[1])
     rep.floor("handler paths that commit a mark", n_marked, 100)
+    # a commit with effects but WITHOUT the mark is re-executed when the worker dies before the processor's own post-handle
+    # mark - unless the stored status makes the redelivery a no-op (same rule as C01.R1.SEQ5, shared implementation)
+    from .c01 import mark_or_flip_rule
+    mark_or_flip_rule(rep, "C09.R4", infos)
     stmts = [s for s in sqlshape.statements(prog) if sqlshape.is_sqlite(s) and s.table == "processed_messages"]
     tm = [s for s in stmts if s.func.qualname == "AtomicTransaction.mark_message_processed"]
     rep.check(len(tm) == 1 and tm[0].kind == "INSERT" and tm[0].modifier == "OR IGNORE" and "message_id" in tm[0].cols, "C09.R4", "transactional mark statement",
